@@ -131,8 +131,11 @@ func attFor(rc *RunCtx, k int, wm Watermark, uniq uint64) Entry {
 	}
 	e := AttEntry(k, src, tgt, uniq)
 	e.Slot, e.CIdx = rc.Ch.U64(), rc.Ch.U64()
-	if ch.Pick(3, 0) == 1 {
+	switch ch.Pick(8, 0) {
+	case 1, 2:
 		e.ByKey = true
+	case 3:
+		e.KeyPad = 1 + ch.Pick(2, 0)
 	}
 	return e
 }
